@@ -49,6 +49,8 @@ struct Inner {
     violation: Option<Violation>,
     probes: Vec<&'static str>,
     polls: u64,
+    fresh_identity: bool,
+    stale_wakes: u64,
 }
 
 pub struct Sched {
@@ -127,6 +129,9 @@ fn hook(site: &'static str) {
 struct PW {
     s: Arc<Sched>,
     poller: usize,
+    /// Poll generation this waker was handed out for. In "fresh identity" runs only the waker of the most
+    /// recent poll wakes the task (Future::poll: "only the Waker from the most recent call should be woken").
+    gen: u64,
 }
 
 fn pw_clone(p: *const ()) -> RawWaker {
@@ -142,6 +147,11 @@ fn pw_wake_by_ref(p: *const ()) {
     point("waker_wake");
     let pw = unsafe { &*(p as *const PW) };
     let mut g = lock_inner(&pw.s);
+    if g.fresh_identity && pw.gen != g.polls {
+        // a waker from an earlier poll: the task has moved on (e.g. re-polled from another task / combinator)
+        g.stale_wakes += 1;
+        return;
+    }
     g.woken = true;
     g.wakes += 1;
     if g.st[pw.poller] == TS::Blocked {
@@ -155,7 +165,8 @@ fn pw_drop(p: *const ()) {
 static VTABLE: RawWakerVTable = RawWakerVTable::new(pw_clone, pw_wake, pw_wake_by_ref, pw_drop);
 
 fn make_waker(s: &Arc<Sched>, poller: usize) -> Waker {
-    let pw = Arc::new(PW { s: s.clone(), poller });
+    let gen = lock_inner(s).polls;
+    let pw = Arc::new(PW { s: s.clone(), poller, gen });
     unsafe { Waker::from_raw(RawWaker::new(Arc::into_raw(pw) as *const (), &VTABLE)) }
 }
 
@@ -177,7 +188,7 @@ fn leave(s: &Arc<Sched>, me: usize) {
 }
 
 pub const D3_FAULTS: &[&str] = &["thread_switch", "last_drop_between_upgrade_and_register", "last_drop_between_register_and_temp_drop", "last_drop_before_first_poll", "concurrent_token_drops"];
-pub const D3_PROBES: &[&str] = &["poller_blocked_then_woken", "ready_at_first_poll", "wake_from_temp_arc_drop", "poller_polled_3plus", "hook_points_seen", "waker_clone_points_seen"];
+pub const D3_PROBES: &[&str] = &["spurious_repoll", "repolled_with_new_waker_identity", "poller_blocked_then_woken", "ready_at_first_poll", "wake_from_temp_arc_drop", "poller_polled_3plus", "hook_points_seen", "waker_clone_points_seen"];
 
 /// C14 wait group: one poller thread on the shutdown future, 1..3 dropper threads.
 pub fn c14_wg(cx: &mut Ctx) -> VResult {
@@ -207,6 +218,7 @@ pub fn c14_wg(cx: &mut Ctx) -> VResult {
         per[d].push(t);
     }
     let poll_before = cx.ch.chance(1, 3);
+    let fresh_identity = cx.ch.chance(1, 2);
     let mut shutdown = Box::pin(runner.shutdown());
     let nthreads = 1 + n_droppers;
     let ch = std::mem::replace(&mut cx.ch, Chooser::replay(Vec::new()));
@@ -214,17 +226,17 @@ pub fn c14_wg(cx: &mut Ctx) -> VResult {
         m: Mutex::new(Inner {
             ch, turn: MAIN, st: vec![TS::Runnable; nthreads], last_site: vec![""; nthreads], events: Vec::new(),
             digest: cx.digest, skeleton: cx.skeleton, switches: 0, woken: false, wakes: 0, deadlock: false, abort: false,
-            tokens_total: n_tokens, drops_begun: 0, drops_done: 0, ready_seen: false, violation: None, probes: Vec::new(), polls: 0,
+            tokens_total: n_tokens, drops_begun: 0, drops_done: 0, ready_seen: false, violation: None, probes: Vec::new(), polls: 0, fresh_identity, stale_wakes: 0,
         }),
         cv: Condvar::new(),
     });
     if poll_before {
         // register a waker before any dropper runs (on the main thread, outside the simulation)
+        lock_inner(&s).polls += 1;
         let w = make_waker(&s, 0);
         let mut c = Context::from_waker(&w);
         let r = shutdown.as_mut().poll(&mut c);
         let mut g = lock_inner(&s);
-        g.polls += 1;
         if r.is_ready() { g.violation = Some(Violation::new("c14_shutdown_ready_early", "", "shutdown future Ready before any token was dropped".into())); }
     }
     std::thread::scope(|sc| {
@@ -260,6 +272,12 @@ pub fn c14_wg(cx: &mut Ctx) -> VResult {
                     // wait for the waker: blocked unless already woken
                     let mut g = lock_inner(&sp);
                     if g.abort { break; }
+                    if !g.woken && g.polls < 4 && g.ch.chance(1, 4) {
+                        // a spurious re-poll (legal for any future), with a new waker identity in fresh-identity runs
+                        g.probes.push("spurious_repoll");
+                        drop(g);
+                        continue;
+                    }
                     if !g.woken {
                         g.st[0] = TS::Blocked;
                         g.events.push((0, "poller_blocks"));
@@ -336,6 +354,8 @@ pub fn c14_wg(cx: &mut Ctx) -> VResult {
     if g.events.iter().any(|(_, s)| s.starts_with("wg_")) { cx.probe("hook_points_seen"); }
     if g.events.iter().any(|(_, s)| *s == "waker_clone") { cx.probe("waker_clone_points_seen"); }
     if g.events.iter().any(|(t, s)| *t == 0 && *s == "waker_wake") { cx.probe("wake_from_temp_arc_drop"); }
+    if g.fresh_identity && g.polls >= 2 { cx.probe("repolled_with_new_waker_identity"); }
+    if g.stale_wakes > 0 { cx.probe("stale_waker_woken"); }
     if cx.trace || cx.want_sample {
         let tr: Vec<String> = g.events.iter().map(|(t, s)| format!("T{t}:{s}")).collect();
         if cx.trace { cx.events.extend(tr.iter().cloned()); }
